@@ -24,6 +24,8 @@ type c15P struct {
 	K1, K2 int // B exponent, result exponent
 	Number int
 	LUN    int
+	// Prev, when set, is the reading performed on the same reader beforehand.
+	Prev *c15P `json:",omitempty"`
 }
 
 type c15Batch struct {
@@ -99,6 +101,13 @@ func c15Exec(run *ev.Run, c ev.Case) {
 		env, err := c15Open(1)
 		if err != nil {
 			run.Violation("C15:handshake-failed", err.Error(), c, nil)
+			return
+		}
+		if p.Prev != nil {
+			rd := c15Read(run, env, *p.Prev, nil)
+			if rd != nil {
+				c15Read(run, env, p, rd)
+			}
 			return
 		}
 		c15One(run, env, p)
@@ -225,7 +234,30 @@ func classOf(f float64) string {
 	return "finite"
 }
 
+// c15One checks one reading; the reader is then used a second time with a
+// different response (reader values are long-lived in real use), checked the same way.
 func c15One(run *ev.Run, env *c15Env, p c15P) {
+	rd := c15Read(run, env, p, nil)
+	if rd == nil {
+		return
+	}
+	q := p
+	q.Raw = (p.Raw*7 + 13) & 0xff
+	switch (p.Raw + p.M) % 4 {
+	case 0:
+		q.Flags = 0x40 // available again after whatever came first
+	case 1:
+		q.Flags = p.Flags ^ 0x20
+	case 2:
+		q.Flags = p.Flags ^ 0x40
+	}
+	pc := p
+	pc.Prev = nil
+	q.Prev = &pc
+	c15Read(run, env, q, rd)
+}
+
+func c15Read(run *ev.Run, env *c15Env, p c15P, reuse bmc.SensorReader) bmc.SensorReader {
 	run.Eval(1)
 	cs := ev.MkCase("one", p)
 	rec := &ipmi.FullSensorRecord{}
@@ -239,11 +271,15 @@ func c15One(run *ev.Run, env *c15Env, p c15P) {
 	wantCtorErr := p.Lin >= 12 || p.Format == 3
 	if (err != nil) != wantCtorErr {
 		run.Violation("C15:constructor", fmt.Sprintf("%s: NewSensorReader err=%v, expected refusal: %v", desc, err, wantCtorErr), cs, nil)
-		return
+		return nil
 	}
 	if wantCtorErr {
 		run.Nontrivial(fmt.Sprintf("ctor|%d|%d", p.Format, p.Lin))
-		return
+		return nil
+	}
+	if reuse != nil {
+		rd = reuse
+		desc += " (second read on a used reader)"
 	}
 	env.sd.Set(byte(p.LUN), byte(p.Number), []byte{byte(p.Raw), byte(p.Flags), 0x00})
 	nreq := len(env.sd.Requests)
@@ -253,11 +289,11 @@ func c15One(run *ev.Run, env *c15Env, p c15P) {
 	cancel()
 	if pv != nil {
 		run.Violation("C15:panic:"+panicSite(st), fmt.Sprintf("%s: %v\n%s", desc, pv, trimStack(st)), cs, nil)
-		return
+		return rd
 	}
 	if len(env.sd.Requests) != nreq+1 || env.sd.Requests[nreq] != [2]byte{byte(p.LUN), byte(p.Number)} {
 		run.Violation("C15:wrong-sensor-requested", fmt.Sprintf("%s: sensor device saw requests %v for sensor number %d LUN %d", desc, env.sd.Requests[nreq:], p.Number, p.LUN), cs, nil)
-		return
+		return rd
 	}
 	if len(env.sd.Requests) > 4096 {
 		env.sd.Requests = env.sd.Requests[:0]
@@ -275,10 +311,10 @@ func c15One(run *ev.Run, env *c15Env, p c15P) {
 		if !okErr {
 			run.Violation("C15:flags", fmt.Sprintf("%s: unavailable=%v scanning=%v but Read returned value %v err %v", desc, unavailable, scanning, got, err), cs, nil)
 		}
-		return
+		return rd
 	case err != nil:
 		run.Violation("C15:unexpected-error", fmt.Sprintf("%s: %v", desc, err), cs, nil)
-		return
+		return rd
 	}
 	// exact evaluation of the linear part
 	var x int
@@ -329,7 +365,7 @@ func c15One(run *ev.Run, env *c15Env, p c15P) {
 			key := fmt.Sprintf("C15:class:L%d", p.Lin)
 			run.Violation(key, fmt.Sprintf("%s: Read returned %v (%s); exact evaluation gives x=%d linear=%v L=%v (%s)", desc, got, classOf(got), x, y, want, classOf(want)), cs, nil)
 		}
-		return
+		return rd
 	}
 	tol := 1e-9*math.Abs(want) + 4*math.Abs(hi-lo) + 2*math.Abs(alt-want) + 1e-300
 	if p.Lin == 0 {
@@ -341,9 +377,10 @@ func c15One(run *ev.Run, env *c15Env, p c15P) {
 			key = "C15:cube-root-of-negative-is-nan"
 		}
 		run.Violation(key, fmt.Sprintf("%s: Read returned %v; exact evaluation gives x=%d linear=%v L=%v (tolerance %g)", desc, got, x, y, want, tol), cs, nil)
-		return
+		return rd
 	}
 	if p.Raw == 0x80 && p.Flags == 0x40 && p.M%97 == 0 {
 		run.Sample(fmt.Sprintf("L%d", p.Lin), map[string]any{"params": p, "x": x, "linear_exact": lin.FloatString(12), "expected": want, "got": got})
 	}
+	return rd
 }
